@@ -57,10 +57,13 @@ def check_nll_formula(repo, chk):
     if fn is None:
         raise AnalysisError("anchor vanished: BaseModel.nll")
     clip = repo.fn_opt(MODEL + "::clip_log") if hasattr(repo, "fn_opt") else None
-    for r in (1, 2):
+    for r, zero_event in ((1, False), (2, False), (2, True)):
         for extended in (False, True):
             n_ev = 2
             w = _arr("w", n_ev * r)
+            if zero_event:
+                # the smeared copies of the first event all carry weight 0 (a vanishing sWeight): the event drops out
+                w = np.array([sp.Integer(0)] * r + list(w[r:]), dtype=object)
             f = _arr("f", n_ev * r)
             v = _arr("v", 3)
             g = _arr("g", 3)
@@ -73,7 +76,9 @@ def check_nll_formula(repo, chk):
             F = (lambda x: x) if extended else (lambda x: sp.log(sp.sympify(x)))
             hooks = {"allow_attr_store": True, "allow_shape": True, "unary:log": log_hook, "stack_as_array": True}
             if clip is not None:
-                hooks[clip.key] = lambda tr, args, kwargs, node: np.array([sp.log(sp.sympify(x)) for x in np.asarray(args[0], dtype=object).reshape(-1)], dtype=object)
+                # clip_log is the logarithm above its threshold and a finite continuation below it (decided by D-safelog):
+                # at exactly 0 it returns a finite number, here the symbol CLIP0
+                hooks[clip.key] = lambda tr, args, kwargs, node: np.array([(sp.Symbol("CLIP0", real=True) if sp.sympify(x) == 0 else sp.log(sp.sympify(x))) for x in np.asarray(args[0], dtype=object).reshape(-1)], dtype=object)
             for gname in ("data_shape",):
                 for gfn in repo.func_by_name.get(gname, []):
                     hooks[gfn.key] = lambda tr, args, kwargs, node: sp.Integer(len(args[0]["weight"]))
@@ -88,8 +93,8 @@ def check_nll_formula(repo, chk):
             sw = sum(W)
             alpha = sw / sum(x ** 2 for x in W)
             int_mc = sum(v[j] * g[j] for j in range(3)) / sum(v)
-            want = -alpha * (sum(W[i] * sp.log(A[i] / W[i]) for i in range(n_ev)) - sw * F(int_mc))
-            cmp("default%s, resolution_size=%d: nll == -alpha [sum W ln(sum w f / W) - (sum W) F(int)]" % (" extended" if extended else "", r), fn, got, want, MODEL)
+            want = -alpha * (sum(W[i] * sp.log(A[i] / W[i]) for i in range(n_ev) if W[i] != 0) - sw * F(int_mc))
+            cmp("default%s, resolution_size=%d%s: nll == -alpha [sum W ln(sum w f / W) - (sum W) F(int)]" % (" extended" if extended else "", r, ", first event of total weight 0" if zero_event else "", ), fn, got, want, MODEL)
 
     # ---------------------------------------------------------------- cfit
     for ckey, ext in ((CFIT + "::Model_cfit", False), (CFIT + "::ModelCfitExtended", True)):
@@ -133,3 +138,100 @@ def check_nll_formula(repo, chk):
                 cmp("%s, resolution_size=%d, phase-space weights %s: nll == mixture formula%s" % (cls.name, r, "given" if weighted else "absent", " + extended terms" if ext else ""), fn, got, want, CFIT)
     if n_obl < 10:
         raise AnalysisError("N-formula: only %d obligations generated" % n_obl)
+
+
+def check_batch_sum(repo, chk, rule="N-batchsum"):
+    """the per-batch sum behind nll_grad / nll_grad_hessian: sum over events of W_i T(sum_k w_ik f_ik / W_i)"""
+    fn = repo.fn(MODEL + "::_batch_sum")
+    chk.rule(rule, "_batch_sum (the per-batch term of sum_gradient / sum_hessian / sum_grad_hessp) interpreted on two events x resolution_size smeared copies with the model, the transform T and the weights as probes - all weights free positive symbols, and the copies of the first event all of weight 0 (a vanishing sWeight): the result is sum_i W_i T(sum_k w_ik f_ik / W_i) with W_i = sum_k w_ik, an event of total weight 0 contributing nothing")
+    T = sp.Function("T")
+    n = 0
+    for r in (1, 2):
+        for zero_event in (False, True):
+            n_ev = 2
+            w = _arr("w", n_ev * r)
+            if zero_event:
+                w = np.array([sp.Integer(0)] * r + list(w[r:]), dtype=object)
+            f = _arr("f", n_ev * r)
+
+            def trans(x):
+                return np.array([T(sp.sympify(v)) for v in np.asarray(x, dtype=object).reshape(-1)], dtype=object)
+
+            hooks = {"allow_shape": True, "stack_as_array": True, "concrete_zeros": True}
+            gs = repo.fn_opt(MODEL + "::get_shape") if hasattr(repo, "fn_opt") else None
+            if gs is not None:
+                hooks[gs.key] = lambda tr_, a_, k_, n_: tuple(sp.Integer(d_) for d_ in np.asarray(a_[0], dtype=object).shape)
+            tr = Translator(repo, hooks=hooks, where_policy=_policy, max_depth=2)
+            try:
+                got = tr.call_fn(fn, [PyFunc(lambda d, *a, **k: f), {"tag": "data"}, w, PyFunc(trans), sp.Integer(r), [], {}])
+            except Unmodelled as e:
+                raise AnalysisError("_batch_sum cannot be interpreted (resolution_size=%d%s): %s" % (r, ", zero-weight event" if zero_event else "", e))
+            W = [sum(w[i * r + k] for k in range(r)) for i in range(n_ev)]
+            A = [sum(w[i * r + k] * f[i * r + k] for k in range(r)) for i in range(n_ev)]
+            want = sum(W[i] * T(A[i] / W[i]) for i in range(n_ev) if W[i] != 0)
+            try:
+                same = sp.simplify(sp.sympify(got) - want) == 0
+            except (TypeError, ValueError):
+                same = False
+            n += 1
+            label = "resolution_size=%d%s" % (r, ", first event of total weight 0" if zero_event else "")
+            chk.oblige(rule, "_batch_sum, %s: sum_i W_i T(sum_k w f / W_i)" % label, same)
+            if not same:
+                chk.violation(rule, fn.key, label, "_batch_sum (%s) evaluates to %s, expected %s: the gradient-side likelihood no longer is the weighted sum of the statement (an event whose smeared copies sum to weight 0 must drop out; nll_grad then differs from nll)" % (label, got, want), file=MODEL, line=fn.lineno)
+    chk.require_count(rule, 4)
+
+
+def check_cache_atomic(repo, chk, prefixes, rule="K-atomic", min_sites=1):
+    """an entry of a persistent cache is registered when it is complete"""
+    import ast
+
+    from ..model import norm_text
+
+    chk.rule(rule, "an entry stored in a persistent cache of the model object (self.<...cache...>[key] = value, found again by `key in self.<cache>` on the next call) is complete when it is registered: the stored container is not filled afterwards through a local alias - a step of the filling that raises (memory, an interrupted evaluation) would leave a partial entry that the next call takes for the whole sample")
+    n_sites = 0
+    for rel, m in sorted(repo.mods.items()):
+        if "/tests/" in rel or not any(rel.startswith(p) for p in prefixes):
+            continue
+        for f in m.funcs.values():
+            body_nodes = [n for n in ast.walk(f.node)]
+            for st in body_nodes:
+                if not isinstance(st, ast.Assign):
+                    continue
+                cache_t = [t for t in st.targets if isinstance(t, ast.Subscript) and isinstance(t.value, ast.Attribute) and "cache" in t.value.attr.lower() and norm_text(t.value).startswith("self.")]
+                if not cache_t:
+                    continue
+                n_sites += 1
+                aliases = {t.id for t in st.targets if isinstance(t, ast.Name)}
+                if isinstance(st.value, ast.Name):
+                    aliases.add(st.value.id)
+                late = []
+                # a later plain rebinding of the local name (`c_data = []` for the next entry) ends the alias
+                rebound = {}
+                for n in body_nodes:
+                    if isinstance(n, (ast.Assign, ast.AnnAssign, ast.For)) and getattr(n, "lineno", 0) > st.end_lineno:
+                        ts_ = n.targets if isinstance(n, ast.Assign) else [n.target]
+                        for t in ts_:
+                            for x in ast.walk(t):
+                                if isinstance(x, ast.Name) and isinstance(x.ctx, ast.Store) and x.id in aliases:
+                                    rebound[x.id] = min(rebound.get(x.id, 10 ** 9), n.lineno)
+                for n in body_nodes:
+                    if getattr(n, "lineno", 0) <= st.end_lineno:
+                        continue
+                    if isinstance(n, ast.Call) and isinstance(n.func, ast.Attribute) and isinstance(n.func.value, ast.Name) and n.lineno > rebound.get(n.func.value.id, 10 ** 9):
+                        continue
+                    if isinstance(n, (ast.Assign, ast.AugAssign)) and any(isinstance(t, ast.Subscript) and isinstance(t.value, ast.Name) and n.lineno > rebound.get(t.value.id, 10 ** 9) for t in (n.targets if isinstance(n, ast.Assign) else [n.target])):
+                        continue
+                    if isinstance(n, ast.Call) and isinstance(n.func, ast.Attribute) and n.func.attr in ("append", "extend", "insert", "update", "setdefault", "add") and isinstance(n.func.value, ast.Name) and n.func.value.id in aliases:
+                        late.append(n)
+                    elif isinstance(n, ast.Call) and isinstance(n.func, ast.Attribute) and n.func.attr in ("append", "extend", "insert", "update") and norm_text(n.func.value) == norm_text(cache_t[0]):
+                        late.append(n)
+                    elif isinstance(n, (ast.Assign, ast.AugAssign)):
+                        for t in (n.targets if isinstance(n, ast.Assign) else [n.target]):
+                            if isinstance(t, ast.Subscript) and isinstance(t.value, ast.Name) and t.value.id in aliases:
+                                late.append(n)
+                chk.instance(rule, "%s: `%s` registered at line %d, %d later fill(s) of the registered container" % (f.key, norm_text(cache_t[0]), st.lineno, len(late)), nontrivial=True)
+                for n in late[:1]:
+                    chk.violation(rule, f.key, "late-fill:%s" % norm_text(cache_t[0]), "`%s` is registered at line %d and filled afterwards (`%s`): if a step of the filling raises, the partial entry stays in the cache and the next call (same key) evaluates the likelihood on part of the sample without noticing" % (norm_text(cache_t[0]), st.lineno, norm_text(n)[:70]), file=rel, line=n.lineno)
+    if n_sites < min_sites:
+        raise AnalysisError("%s: %d cache registrations under %s (expected at least %d)" % (rule, n_sites, prefixes, min_sites))
+    chk.require_count(rule, min_sites)
